@@ -250,4 +250,230 @@ theorem comprLoop_sim {V : Type} (emb : V → Val) (gens : List (String × List 
                 rw [hbd]
                 exact ih (i + 1) (w :: acc) hnext
 
+/-! ### `eval_comprehension` -/
+
+theorem foldl_min_mem (l : List Nat) (init : Nat) : l.foldl min init ∈ init :: l := by
+  induction l generalizing init with
+  | nil => simp
+  | cons h t ih =>
+    simp only [List.foldl_cons]
+    have := ih (min init h)
+    simp only [List.mem_cons] at this ⊢
+    rcases this with h1 | h1
+    · rcases Nat.le_total init h with h2 | h2
+      · left; rw [h1, Nat.min_eq_left h2]
+      · right; left; rw [h1, Nat.min_eq_right h2]
+    · right; right; exact h1
+
+/-- the bound both models give their loop: the length of the shortest generator array -/
+def minLen {V : Type} (arrays : List (List V)) : Nat := (arrays.map List.length).foldl min (arrays.headD []).length
+
+/-- at index `minLen` some generator is exhausted -/
+theorem bind_none_at_min {V : Type} (gens : List (String × List V)) (hne : gens ≠ []) (e : Arr.Env V) :
+    Arr.comprStep.bind (minLen (gens.map (·.2))) (gens.map (·.1)) (gens.map (·.2)) e = none := by
+  cases hb : Arr.comprStep.bind (minLen (gens.map (·.2))) (gens.map (·.1)) (gens.map (·.2)) e with
+  | none => rfl
+  | some e' =>
+    exfalso
+    have hl := (C12_comprehension_lockstep (gens.map (·.1)) (gens.map (·.2)) e (minLen (gens.map (·.2))) (by simp)).mp
+      (by rw [hb]; rfl)
+    have hm := foldl_min_mem ((gens.map (·.2)).map List.length) ((gens.map (·.2)).headD []).length
+    have hm' : minLen (gens.map (·.2)) ∈ (gens.map (·.2)).map List.length := by
+      cases gens with
+      | nil => exact absurd rfl hne
+      | cons g rest =>
+        simp only [List.map_cons, List.headD_cons, List.mem_cons] at hm ⊢
+        rcases hm with h | h | h
+        · left; exact h
+        · left; exact h
+        · right; exact h
+    obtain ⟨a, ha, hlen⟩ := List.mem_map.mp hm'
+    have := hl a ha
+    omega
+
+theorem arrays_embGens {V : Type} (emb : V → Val) (gens : List (String × List V)) :
+    arrays? (gens.map (fun g => (g.1, Val.arr (g.2.map emb)))) = some (embGens emb gens) := by
+  induction gens with
+  | nil => rfl
+  | cons g rest ih =>
+    obtain ⟨n, a⟩ := g
+    simp only [List.map_cons, arrays?, ih, embGens, Option.map_some]
+
+theorem minLen_embGens {V : Type} (emb : V → Val) (gens : List (String × List V)) :
+    ((embGens emb gens).map (fun g => g.2.length)).foldl min (((embGens emb gens).headD ("", [])).2.length)
+      = minLen (gens.map (·.2)) := by
+  unfold minLen embGens
+  cases gens with
+  | nil => rfl
+  | cons g rest => simp [List.map_map, Function.comp_def]
+
+/-- **`eval_comprehension` after the generator expressions**: the evaluator's comprehension over the
+    embedded generator arrays is the fragment's `Arr.comprehension` -/
+theorem comprehension_sim {V : Type} (emb : V → Val) (gens : List (String × List V)) (hne : gens ≠ [])
+    (conds : List (Env → R Val)) (fconds : List (Arr.Env V → Except Err Arr.Cond))
+    (body : Env → R Val) (fbody : Arr.Env V → Except Err V) (env : Env) (e : Arr.Env V) (hsim : EnvSim emb env e)
+    (hagree : ∀ i env' e', bindGens i (embGens emb gens) env = some env' →
+        Arr.comprStep.bind i (gens.map (·.1)) (gens.map (·.2)) e = some e' →
+        List.Forall₂ (CondAgree env' e') conds fconds ∧ BodyAgree emb env' e' body fbody) :
+    Eval.comprehension (gens.map (fun g => (g.1, Val.arr (g.2.map emb)))) conds body env =
+      liftArr emb (Arr.comprehension (gens.map (·.1)) (gens.map (·.2)) fconds fbody e) := by
+  have hemp : (gens.map (·.1)).isEmpty = false := by cases gens <;> simp_all
+  simp only [Eval.comprehension, arrays_embGens, minLen_embGens, Arr.comprehension, hemp, Bool.false_eq_true, if_false]
+  have := comprLoop_sim emb gens conds fconds body fbody env e hsim hagree (minLen (gens.map (·.2)) + 1) 0 []
+    ⟨minLen (gens.map (·.2)), by omega, by rw [Nat.zero_add]; exact bind_none_at_min gens hne e⟩
+  simpa [minLen] using this
+
+theorem evalConds_eq_map (cs : List Ast) : evalConds cs = cs.map (fun c env' => evalE env' c) := by
+  induction cs with
+  | nil => rfl
+  | cons c cs ih => simp only [evalConds, ih, List.map_cons]
+
+/-- `eval_node` on an ARRAY_WITH_CONDITION node -/
+theorem evalE_compr (env : Env) (body : Ast) (gens : List (String × Ast)) (conds : List Ast) :
+    evalE env (.compr body gens conds) =
+      (if gens.isEmpty then raise .eval else
+        evalKs env gens >>= fun subs =>
+          Eval.comprehension subs (conds.map (fun c env' => evalE env' c)) (fun env' => evalE env' body) env) := by
+  simp only [evalE, evalConds_eq_map]
+
+/-- the generator clauses evaluate, left to right, to the embedded arrays -/
+theorem evalKs_gens {V : Type} (emb : V → Val) (env : Env) (gens : List (String × Ast)) (arrays : List (List V))
+    (h : List.Forall₂ (fun g a => evalE env g.2 = .ok (.arr (a.map emb))) gens arrays) :
+    ∃ gl : List (String × List V), gl.map (·.1) = gens.map (·.1) ∧ gl.map (·.2) = arrays ∧
+      evalKs env gens = .ok (gl.map (fun g => (g.1, Val.arr (g.2.map emb)))) := by
+  induction h with
+  | nil => exact ⟨[], rfl, rfl, rfl⟩
+  | @cons g a gs as' hg _ ih =>
+    obtain ⟨gl, h1, h2, h3⟩ := ih
+    obtain ⟨n, t⟩ := g
+    refine ⟨(n, a) :: gl, by simp [h1], by simp [h2], ?_⟩
+    simp only at hg
+    simp only [evalKs, hg, h3, bind, Except.bind, List.map_cons]
+
+/-! ### evaluation reads the bindings through `get` only -/
+
+/-- a function of the environment that cannot tell apart two binding lists that read the same -/
+def Respects {α : Type} (f : Env → α) : Prop := ∀ a b, EnvEq a b → f a = f b
+
+theorem bindGens_congr (i : Nat) (gens : List (String × List Val)) (a b : Env) (h : EnvEq a b) :
+    match bindGens i gens a, bindGens i gens b with
+    | some a', some b' => EnvEq a' b'
+    | none, none => True
+    | _, _ => False := by
+  induction gens generalizing a b with
+  | nil => exact h
+  | cons g rest ih =>
+    obtain ⟨n, xs⟩ := g
+    simp only [bindGens]
+    cases xs[i]? with
+    | none => trivial
+    | some v => exact ih _ _ (h.set n v)
+
+theorem condLoop_congr (conds : List (Env → R Val)) (hc : ∀ c ∈ conds, Respects c) (a b : Env) (h : EnvEq a b) (ok : Bool) :
+    condLoop a conds ok = condLoop b conds ok := by
+  induction conds generalizing ok with
+  | nil => rfl
+  | cons c cs ih =>
+    have hcs : ∀ c' ∈ cs, Respects c' := fun c' hm => hc c' (List.mem_cons_of_mem _ hm)
+    simp only [condLoop, hc c List.mem_cons_self a b h]
+    cases c b with
+    | error er => rfl
+    | ok v =>
+      simp only [bind, Except.bind]
+      cases boolLike v with
+      | error er => rfl
+      | ok m =>
+        cases m with
+        | none => rfl
+        | some bb => exact ih hcs _
+
+theorem comprLoop_congr (gens : List (String × List Val)) (conds : List (Env → R Val)) (body : Env → R Val)
+    (hc : ∀ c ∈ conds, Respects c) (hb : Respects body) (a b : Env) (h : EnvEq a b) (fuel i : Nat) (acc : List Val) :
+    Eval.comprLoop gens conds body a fuel i acc = Eval.comprLoop gens conds body b fuel i acc := by
+  induction fuel generalizing i acc with
+  | zero => rfl
+  | succ f ih =>
+    have hg := bindGens_congr i gens a b h
+    simp only [Eval.comprLoop]
+    cases h1 : bindGens i gens a with
+    | none =>
+      cases h2 : bindGens i gens b with
+      | none => rfl
+      | some b' => rw [h1, h2] at hg; exact hg.elim
+    | some a' =>
+      cases h2 : bindGens i gens b with
+      | none => rw [h1, h2] at hg; exact hg.elim
+      | some b' =>
+        rw [h1, h2] at hg
+        simp only [condLoop_congr conds hc a' b' hg true, hb a' b' hg]
+        cases condLoop b' conds true with
+        | error er => rfl
+        | ok keep =>
+          cases keep with
+          | false => simp only [bind, Except.bind, Bool.false_eq_true, if_false]; exact ih _ _
+          | true =>
+            simp only [bind, Except.bind, if_true]
+            cases body b' with
+            | error er => rfl
+            | ok v =>
+              dsimp only
+              cases resolveLazy v with
+              | error er => rfl
+              | ok w => exact ih _ _
+
+theorem comprehension_congr (subs : List (String × Val)) (conds : List (Env → R Val)) (body : Env → R Val)
+    (hc : ∀ c ∈ conds, Respects c) (hb : Respects body) (a b : Env) (h : EnvEq a b) :
+    Eval.comprehension subs conds body a = Eval.comprehension subs conds body b := by
+  simp only [Eval.comprehension]
+  cases arrays? subs with
+  | none => rfl
+  | some gens => exact comprLoop_congr gens conds body hc hb a b h _ _ _
+
+mutual
+/-- **evaluation depends on the bindings only through `get`**: two binding lists that read the same
+    under every name give every expression tree the same value or failure.  (So the evaluator's
+    `Env.set` — one binding per name, newest first — and any other representation of the session's
+    dictionary are interchangeable.) -/
+theorem evalE_congr : (t : Ast) → ∀ a b : Env, EnvEq a b → evalE a t = evalE b t
+  | .var x => fun a b h => by simp only [evalE, h x]
+  | .bin o l r => fun a b h => by simp only [evalE, evalE_congr l a b h, evalE_congr r a b h]
+  | .sign neg x => fun a b h => by simp only [evalE, evalE_congr x a b h]
+  | .fact x => fun a b h => by simp only [evalE, evalE_congr x a b h]
+  | .range lo hi => fun a b h => by simp only [evalE, evalE_congr lo a b h, evalE_congr hi a b h]
+  | .interval lo hi => fun a b h => by simp only [evalE, evalE_congr lo a b h, evalE_congr hi a b h]
+  | .cmp1 o x y => fun a b h => by simp only [evalE, evalE_congr x a b h, evalE_congr y a b h]
+  | .cmp2 o1 o2 x y z => fun a b h => by
+    simp only [evalE, evalE_congr x a b h, evalE_congr y a b h, evalE_congr z a b h]
+  | .call name args kws => fun a b h => by simp only [evalE, evalEs_congr args a b h, evalKs_congr kws a b h]
+  | .quantity t sig => fun a b h => by simp only [evalE, evalE_congr t a b h]
+  | .convert t sig => fun a b h => by simp only [evalE, evalE_congr t a b h]
+  | .array xs => fun a b h => by simp only [evalE, evalEs_congr xs a b h]
+  | .compr body gens conds => fun a b h => by
+    simp only [evalE, evalKs_congr gens a b h]
+    split
+    · rfl
+    · cases evalKs b gens with
+      | error er => rfl
+      | ok subs =>
+        exact comprehension_congr subs _ _ (evalConds_respects conds) (fun a' b' h' => evalE_congr body a' b' h') a b h
+  | .num _ => fun _ _ _ => by simp only [evalE]
+  | .str _ => fun _ _ _ => by simp only [evalE]
+  | .inst _ => fun _ _ _ => by simp only [evalE]
+  | .assign _ _ => fun _ _ _ => by simp only [evalE]
+  | .stmts _ => fun _ _ _ => by simp only [evalE]
+theorem evalEs_congr : (ts : List Ast) → ∀ a b : Env, EnvEq a b → evalEs a ts = evalEs b ts
+  | [] => fun _ _ _ => rfl
+  | t :: ts => fun a b h => by simp only [evalEs, evalE_congr t a b h, evalEs_congr ts a b h]
+theorem evalKs_congr : (ts : List (String × Ast)) → ∀ a b : Env, EnvEq a b → evalKs a ts = evalKs b ts
+  | [] => fun _ _ _ => rfl
+  | (k, t) :: ts => fun a b h => by simp only [evalKs, evalE_congr t a b h, evalKs_congr ts a b h]
+theorem evalConds_respects : (cs : List Ast) → ∀ c ∈ evalConds cs, Respects c
+  | [] => fun c hc => by simp [evalConds] at hc
+  | t :: ts => fun c hc => by
+    simp only [evalConds, List.mem_cons] at hc
+    rcases hc with rfl | hc
+    · exact fun a b h => evalE_congr t a b h
+    · exact evalConds_respects ts c hc
+end
+
 end KaVerif.PipeArr
